@@ -565,6 +565,7 @@ impl World {
                         ops.push(Op::n1(K::FinGcRes, *p));
                         for q in &nodes {
                             ops.push(Op::n3(K::FinResStore, *p, *q, 0));
+                            ops.push(Op::n2(K::FinResInto, *p, *q));
                         }
                     }
                 }
